@@ -89,6 +89,22 @@ let str_lev = function
   | LZeroDrop -> Some "zerodrop"
   | LZeroRead -> Some "zeroread"
 
+
+(* ---------- atomic-event traces (suite S-ev): rendered exactly like harness/src/lib.rs::render_events ---------- *)
+let ord_name = function Relaxed -> "rlx" | Acquire -> "acq" | Release -> "rel" | AcqRel -> "acqrel" | SeqCst -> "seqcst"
+let loc_name = function LIdx P -> "P" | LIdx W -> "W" | LIdx C -> "C" | LAlive -> "A"
+let str_aev = function
+  | ELoad (l, o, v) -> Printf.sprintf "ld:%s:%s:%d" (loc_name l) (ord_name o) (int_of_nat v)
+  | EStore (l, o, v) -> Printf.sprintf "st:%s:%s:%d" (loc_name l) (ord_name o) (int_of_nat v)
+  | ERmwAnd (l, o, v) -> Printf.sprintf "and:%s:%s:%d" (loc_name l) (ord_name o) (int_of_nat v)
+  | ERmwOr (l, o, v) -> Printf.sprintf "or:%s:%s:%d" (loc_name l) (ord_name o) (int_of_nat v)
+  | EFence o -> "fence:" ^ ord_name o
+  | EFree -> "free"
+let str_trace m o = String.concat "," (List.map str_aev (trace strong_profile m o))
+(* a local buffer has plain cells instead of atomics; the fences of BufRef::set_*_alive and the release remain *)
+let str_trace_local m o =
+  String.concat "," (List.map str_aev (List.filter (function EFence _ | EFree -> true | _ -> false) (trace strong_profile m o)))
+
 let b2s b = if b then "1" else "0"
 
 let obs (s : mstate) : string =
@@ -112,6 +128,8 @@ let parse_cfg (l : string) : config =
   { c_init = cells (get "init"); c_worker = (get "stages" = "3");
     c_heap = (get "store" = "heap"); c_owned = (let i = get "item" in String.length i >= 5 && String.sub i 0 5 = "owned") }
 
+let conc = ref false
+let is_conc (l : string) = List.exists (fun w -> w = "kind=conc" || w = "kind=async") (String.split_on_char ' ' l)
 let run_file (path : string) =
   let ic = open_in path in
   let cur : mstate option ref = ref None in
@@ -130,17 +148,19 @@ let run_file (path : string) =
        if l = "" || l.[0] = '#' then (if l <> "" then (finish (); print_endline l))
        else if String.length l > 3 && String.sub l 0 3 = "cfg" then begin
          finish ();
+         conc := is_conc l;
          match init (parse_cfg l) with
          | None -> print_endline "init panic"
-         | Some s -> cur := Some s; print_endline ("init ok | " ^ obs s ^ " | ev=")
+         | Some s -> cur := Some s; print_endline ("init ok | " ^ obs s ^ " | ev= | at=")
        end else
          match !cur with
          | None -> print_endline "skip"
          | Some s ->
-           let (s', (o, evs)) = step s (parse_op l) in
+           let op = parse_op l in
+           let (s', (o, evs)) = step s op in
            List.iter (function LLost v -> lost := v :: !lost | _ -> ()) evs;
            let es = List.sort compare (List.filter_map str_lev evs) in
-           Printf.printf "%s | %s | ev=%s\n" (str_out o) (obs s') (String.concat "," es);
+           Printf.printf "%s | %s | ev=%s | at=%s\n" (str_out o) (obs s') (String.concat "," es) (if !conc then str_trace s op else str_trace_local s op);
            cur := Some s'
      done
    with End_of_file -> ());
@@ -229,19 +249,32 @@ let arun_file (path : string) =
          finish ();
          match init (parse_cfg l) with
          | None -> print_endline "init panic"
-         | Some m -> let s = a_init_state m in cur := Some s; print_endline ("init ok | " ^ aobs s ^ " | ev=")
+         | Some m -> let s = a_init_state m in cur := Some s; print_endline ("init ok | " ^ aobs s ^ " | ev= | at=")
        end else
          match !cur with
          | None -> print_endline "skip"
          | Some s ->
-           let (s', (o, evs)) = astep s (parse_aop s l) in
+           let aop = parse_aop s l in
+           let (s', (o, evs)) = astep s aop in
            List.iter (function LLost v -> lost := v :: !lost | _ -> ()) evs;
            let es = List.sort compare (List.filter_map str_lev evs) in
+           (* program order of one poll: attempt, registration (Waker clones), second attempt *)
+           let poll_trace k f =
+             let (m1, (x1, _)) = step s.base f in
+             if refused x1 then
+               let regs = (match tget k s.wk with Some t when t <> s.task -> "reg,reg" | _ -> "reg") in
+               String.concat "," (List.filter (fun x -> x <> "") [str_trace s.base f; regs; str_trace m1 f])
+             else str_trace s.base f in
+           let at = (match aop with
+               | ADirect d -> if o = OBad then "" else str_trace s.base d
+               | APoll f | AHold f -> if o = OBad then "" else (match future_of f with Some k -> poll_trace k f | None -> "")
+               | ARepoll k -> (match tget k s.held with Some f -> poll_trace k f | None -> "")
+               | _ -> "") in
            (* oracle for C15: which kept futures would complete if polled now *)
            let sat k = (match tget k s'.held with
                | Some _ -> (match astep s' (ARepoll k) with (_, (OPending, _)) -> "0" | _ -> "1")
                | None -> "-") in
-           Printf.printf "%s | %s | ev=%s ## sat=%s%s%s\n" (str_out o) (aobs s') (String.concat "," es) (sat P) (sat W) (sat C);
+           Printf.printf "%s | %s | ev=%s | at=%s ## sat=%s%s%s\n" (str_out o) (aobs s') (String.concat "," es) at (sat P) (sat W) (sat C);
            cur := Some s'
      done
    with End_of_file -> ());
